@@ -62,6 +62,9 @@ def effective(coeffs, tc):
             band = cbp - hbp
             hk, ck = hk * band, ck * band
             hbp, cbp = hbp + hk, cbp - ck
+            if hbp > cbp:
+                # fractions summing to one: the moved points coincide; they stay ordered (rounding must not cross them)
+                cbp = hbp
     else:
         hk = ck = 0.0
     return dict(hdd_bp=hbp, hdd_beta=hb, hdd_k=hk, cdd_bp=cbp, cdd_beta=cb, cdd_k=ck, intercept=c,
